@@ -52,6 +52,7 @@ func checkC06(r *Report, p *Program) {
 	// a delete addresses exactly the observed child it decided about (name, namespace, UID from one object) — shared with C02
 	r02_1(r, p, computeChildRoles(p))
 	oneWritePerChild(r, p, "R06.6")
+	deleteTable(r, p, "R06.7")
 }
 
 // R06.1 method decision table.
@@ -719,4 +720,43 @@ func oneWritePerChild(r *Report, p *Program, rule string) {
 		}
 	}
 	r.Floor(rule, 8)
+}
+
+// deleteTable: deleteChildren's per-child decision, both directions: an observed child is deleted ⇔ it is not
+// pending deletion ∧ it is not desired (no desired map for the kind, or no entry under the child's own key).
+func deleteTable(r *Report, p *Program, rule string) {
+	r.Rule(rule, "deleteChildren, per observed child: Delete ⇔ ¬pending-deletion ∧ (desired == nil ∨ desired[key of this child] == nil), the key being the observed map's own key")
+	r.Floor(rule, 1)
+	f := fn(r, p, rule, "controller/common.deleteChildren")
+	if f == nil {
+		return
+	}
+	loops := engine.RangeLoops(f)
+	if len(loops) != 1 || E(loops[0].X) != "p2" {
+		r.Check(rule, FK(f), p.Pos(f.Pos()), false, "", "expected one loop over the observed children (parameter 2)")
+		return
+	}
+	l := loops[0]
+	paths, err := engine.EnumPaths(f, engine.EnumOpts{Start: l.Body, Leave: func(b *ssa.BasicBlock) bool { return b == l.Header || b == l.Exit },
+		Effect: func(in ssa.Instruction) bool { return isCallTo(in, "dynamic.ResourceInterface.Delete") }})
+	ok, why := err == nil, ""
+	if err != nil {
+		why = err.Error()
+	}
+	key := E(l.Key)
+	for _, pa := range paths {
+		pending := -val(pa, -1, func(a string) bool { return strings.HasPrefix(a, "(call(unstructured.Unstructured.GetDeletionTimestamp)("+E(l.Val)+") == nil)") })
+		noMap := val(pa, -1, func(a string) bool { return a == "(p3 == nil)" })
+		absent := val(pa, -1, func(a string) bool { return a == "(p3["+key+"] == nil)" })
+		del := len(pa.Effects) > 0
+		switch {
+		case del && pending != -1:
+			ok, why = false, "a child is deleted without having been found not pending deletion"
+		case del && !(noMap == 1 || absent == 1):
+			ok, why = false, "a child is deleted although it is desired (or without looking it up under its own key "+key+"); path: "+pa.Cond()
+		case !del && pending == -1 && absent != -1:
+			ok, why = false, "an observed child that is not pending deletion is kept without its key having been found among the desired children: a child the hook no longer lists is not deleted; path: "+pa.Cond()
+		}
+	}
+	r.Check(rule, FK(f), p.Pos(f.Pos()), ok, "Delete ⇔ alive ∧ not desired", why)
 }
